@@ -33,7 +33,7 @@ theorem layouts_agree :
 set_option maxRecDepth 200000 in
 example : layoutObligations.length > 100 := by decide +kernel
 example : pairOk Gen.cRecs (goRecsFor n!"amd64")
-    { c := n!"redirect_entry", go := n!"stub.bpfTuplesKey", fields := [], cAlt := [], wire := false } = false := by decide +kernel
+    { c := n!"redirect_entry", go := n!"stub.bpfTuplesKey", fields := [], cAlt := [] } = false := by decide +kernel
 
 /-- What `pairOk` gives for one mirrored field: the same bytes of the record image are read as
 the same values on both sides, on either byte order. -/
@@ -85,15 +85,44 @@ theorem go_handles_exist_in_c :
     ∧ (∀ t ∈ Gen.goProgTags, nameMem t Gen.cProgs = true)
     ∧ (∀ t ∈ Gen.goVarTags, Gen.cGlobals.any (fun g => nameEq g.1 t) = true) := by decide +kernel
 
-/-- Key and value widths used by the control plane for scalar-keyed maps equal the C definitions; in
-particular the LPM key size declared by `unused_lpm_type` is the size of `struct lpm_key` = `_bpfLpmKey`. -/
-theorem scalar_map_io_widths : ∀ x ∈ goScalarIO, scalarIOOk x = true := by decide +kernel
+/-- **Map I/O, type identity.** At every place where package control hands a key or value to a map
+(regenerated: direct and batch methods on `bpfMaps` fields, `BpfMapBatch{Update,Delete}`,
+`BpfMapBatchDeleteAll[K,V]`, `newLpmMap`, and the same inside functions that receive the map as a
+parameter) the Go type is THE type paired with that map's C key/value record — not merely a type of
+the same size — or, for non-struct arguments, has the C size. -/
+theorem go_map_io_uses_paired_types : ∀ c ∈ Gen.goMapIO, mapIOOk c = true := by decide +kernel
 
-/-- Every call site `<map>.Update/Lookup/Delete(key, value)` found in package control passes a key /
-value whose static type has the size the C map declares (regenerated from the Go sources). -/
-theorem go_map_calls_match_c : ∀ c ∈ Gen.goMapCalls, mapCallOk c = true := by decide +kernel
+example : Gen.goMapIO.length > 40 := by decide +kernel
+-- the predicate rejects a same-size wrong type (the janitor scratch mix-up): bpfRedirectEntry for pid_pname
+example : mapIOOk ⟨n!"cookie_pid_map", 1, n!"stub.bpfRedirectEntry", 32, -1, n!"", "", ""⟩ = false := by decide +kernel
 
-example : Gen.goMapCalls.length > 10 := by decide +kernel
+/-- The full statement one would like: every Go struct type handed to cilium/ebpf can be exchanged as
+declared, i.e. its encoding/binary layout agrees with the C record (cilium v0.20 `sysenc` uses the
+memory image only for types without implicit padding and fails on a size mismatch otherwise). It is
+FALSE for the stub build (`exchanged_types_wire_exact_full_is_false`): four stub types rely on implicit
+Go padding where the bpf2go output they stand in for has explicit pads. -/
+def exchanged_types_wire_exact_full : Prop := ∀ t ∈ exchangedTypes, packedOkFor t = true
+
+/-- Proved part: every exchanged type OTHER than the four listed stub stand-ins is wire exact; and the
+list is tight — each listed type is really exchanged and really not wire exact. Missing: the real
+bpf2go types (not producible offline). -/
+theorem exchanged_types_wire_exact_partial :
+    (∀ t ∈ exchangedTypes, (packedOkFor t || nameMem t stubPaddedStandIns) = true)
+    ∧ (∀ t ∈ stubPaddedStandIns, (nameMem t exchangedTypes && !packedOkFor t) = true) := by decide +kernel
+
+theorem exchanged_types_wire_exact_full_is_false : ¬ exchanged_types_wire_exact_full := by
+  intro h
+  have := h n!"stub.bpfConnState" (by decide +kernel)
+  revert this
+  decide +kernel
+
+/-- `wireExact` is not a hand-set flag: a pairing carries the packed obligation exactly when the Go
+type has no implicit padding (packed size = memory size) or is one of the two hand-written production
+types that are marshalled (`PARAM`, `_bpfLpmKey`). -/
+theorem packed_obligations_derived :
+    (pairing.all fun p =>
+      (layoutObligations.any fun o => nameEq o.1.go p.go && nameEq o.1.c p.c && nameEq o.2 n!"packed")
+        == (wireExact p || p.marshalled)) = true := by decide +kernel
 
 /-! ## B. Enumerations, constants, limits -/
 
@@ -128,7 +157,35 @@ example : (specConstPairs ++ fixedConstPairs).length > 30 := by decide +kernel
 
 /-- Array lengths and map sizes derived from those limits agree as well (bitmap words × 32 =
 MaxMatchSetLen, connectivity slots = 256 × 6, pname lengths = TaskCommLen, …). -/
-theorem limits_agree : ∀ x ∈ limitChecks, x.2 = true := by decide +kernel
+theorem limits_agree : ∀ x ∈ limitChecks, x.2 = some true := by decide +kernel
+
+/-- **Closure of the constant pairing.** Every integer `#define`, enum value and `static const` of
+control/kern (and the probed UAPI names) is paired with a Go constant, tied by another check, or listed
+kernel-only with a reason: a new or newly mirrored C constant cannot stay invisible. -/
+theorem every_c_const_classified : ∀ c ∈ Gen.cConsts, cConstClassified c.1 = true := by decide +kernel
+
+/-- **Literals in Go function bodies.** Every comparison / switch case between a field of a `bpf*`
+value and an integer constant in package control (regenerated) is a plain zero test or carries the
+value of the C enumeration it mirrors (`value.State == 1` ↔ `TCP_STATE_CLOSING`, …). -/
+theorem field_literals_agree : ∀ l ∈ Gen.goFieldLiterals, fieldLiteralOk l = true := by decide +kernel
+
+/-- Constant map keys: the `bpf_stats_map` key whose counter is stored in the …udp… / …tcp… variable is
+`BPF_STATS_UDP_CONN_OVERFLOW` / `BPF_STATS_TCP_CONN_OVERFLOW`, both are read; the `routing_meta_map`
+key is `zero_key`. -/
+theorem const_keys_agree : (∀ c ∈ Gen.goMapIO, constKeyOk c = true) ∧ statsKeysCovered = true := by
+  decide +kernel
+
+/-- **PARAM contents.** Each member of `struct dae_param` is initialised, at the same position of the
+Go literal, from the quantity it stands for (tproxy port, pid, dae0 ifindex, netns id, peer MAC, the two
+feature flags, socket mark) and not from its neighbour's. -/
+theorem param_contents_agree : ∀ x ∈ paramContents, paramContentOk x = true := by decide +kernel
+
+/-- **Go's byte order is the machine's.** For every GOARCH of the release matrix exactly one file of
+`pkg/ebpf_internal` declaring `NativeEndian` is selected by the build constraints, and it chooses the
+byte order of that machine (so the single `e` of the key theorems is justified). -/
+theorem go_native_endian_is_machine_endian :
+    (∀ x ∈ machineBigEndian, nativeEndianOk x = true)
+    ∧ (∀ a ∈ archesAll, machineBigEndian.any (fun x => nameEq x.1 a) = true) := by decide +kernel
 
 /-! ## C. Map keys, byte for byte -/
 
@@ -141,8 +198,8 @@ theorem key_models_follow_layout : keyModelsFollowLayout = true := by decide +ke
 either byte order, and whether the control plane holds an IPv4 peer as an `Is4` address or as the
 IPv4-mapped IPv6 address: the memory image of `bpfTuplesKeyFromAddrPorts(src, dst, proto)` equals the
 memory image of `tuples.five` after `get_tuples` on the packet — all 40 bytes. -/
-theorem tuples_key_bytes (e : Endian) (f : Flow) (mapped : Bool) (_hf : f.WF) :
-    goTuplesKey e (f.goSrc mapped) (f.goDst mapped) f.proto = cTuplesKey e f := by
+theorem tuples_key_bytes (e : Endian) (f : Flow) (mappedSrc mappedDst : Bool) (_hf : f.WF) :
+    goTuplesKey e (f.goSrc mappedSrc) (f.goDst mappedDst) f.proto = cTuplesKey e f := by
   unfold goTuplesKey cTuplesKey
   simp only [goSrc_as16, goDst_as16, cIp_eq, store_htons]
   rfl
@@ -168,7 +225,7 @@ theorem tuples_key_size_and_padding (e : Endian) (f : Flow) (hf : f.WF) :
 /-- IPv4 convergence: the `Is4` and the IPv4-mapped form of the same peer give the same key. -/
 theorem tuples_key_v4_forms_converge (e : Endian) (f : Flow) (hf : f.WF) :
     goTuplesKey e (f.goSrc true) (f.goDst true) f.proto = goTuplesKey e (f.goSrc false) (f.goDst false) f.proto := by
-  rw [tuples_key_bytes e f true hf, tuples_key_bytes e f false hf]
+  rw [tuples_key_bytes e f true true hf, tuples_key_bytes e f false false hf]
 
 /-- The reply-direction key: `copy_reversed_tuples` in the kernel = `bpfTuplesKeyFromAddrPorts(dst, src)`
 in the control plane (`udp_endpoint_pool.go`). -/
@@ -178,7 +235,7 @@ theorem reversed_key_bytes (e : Endian) (f : Flow) (mapped : Bool) (hf : f.WF) :
     obtain ⟨h1, h2, h3, h4, h5, h6⟩ := hf
     refine ⟨?_, h3, h2, h5, h4, h6⟩
     cases hv : f.v4 <;> simp_all [Flow.reverse]
-  have h := tuples_key_bytes e f.reverse mapped hr
+  have h := tuples_key_bytes e f.reverse mapped mapped hr
   have e1 : f.reverse.goSrc mapped = f.goDst mapped := rfl
   have e2 : f.reverse.goDst mapped = f.goSrc mapped := rfl
   rw [e1, e2] at h
@@ -201,82 +258,73 @@ example : (⟨false, [0x20, 1, 0xd, 0xb8, 0, 0, 0, 0, 0, 0, 0, 0, 0, 0, 0, 1],
 example : cTuplesKey .little ⟨true, [10, 0, 0, 1], [8, 8, 8, 8], 40000, 443, 6⟩ =
     [0,0,0,0,0,0,0,0,0,0,255,255,10,0,0,1, 0,0,0,0,0,0,0,0,0,0,255,255,8,8,8,8, 156,64, 1,187, 6, 0,0,0] := by decide +kernel
 
+/-- the five constants of `connectivity.go` exist and have these values now (a vanished constant makes
+this — and everything below — fail; nothing is read as 0) -/
+theorem conn_consts_now : connConsts? = some ⟨6, 2, 0, 1, 2⟩ := by decide +kernel
+
 /-- **Connectivity slots.** For every outbound id and every packet the kernel consults the map for
 (TCP, and UDP to a port other than 53), the slot the kernel reads is the slot under which the
 control plane publishes the health of that traffic class (TCP / data UDP, IPv4 / IPv6). -/
 theorem connectivity_key_agree (outbound l4proto dport : Nat) (ethIsV4 : Bool) (h53 : dport ≠ 53) :
-    cConnKey outbound l4proto dport ethIsV4 = some (goConnKey outbound (ntOfPacket l4proto ethIsV4)) := by
-  have h6 : goConstNat n!"control.outboundConnectivitySlotsPerOutbound" = 6 := by decide +kernel
-  have h2 : goConstNat n!"control.outboundConnectivitySlotsPerDomain" = 2 := by decide +kernel
-  have d0 : goConstNat n!"control.outboundConnectivityDomainTCP" = 0 := by decide +kernel
-  have d2 : goConstNat n!"control.outboundConnectivityDomainDataUDP" = 2 := by decide +kernel
-  unfold cConnKey goConnKey goDomainIdx ntOfPacket NetworkType.effDomain
-  by_cases hu : l4proto = 17 <;> cases ethIsV4 <;> simp [h53, hu, h6, h2, d0, d2]
+    cConnKey outbound l4proto dport ethIsV4 = goConnKey? outbound (ntOfPacket l4proto ethIsV4) := by
+  unfold goConnKey?
+  rw [conn_consts_now]
+  unfold cConnKey goConnKeyWith goDomainIdx ntOfPacket NetworkType.effDomain
+  by_cases hu : l4proto = 17 <;> cases ethIsV4 <;> simp [h53, hu]
+
+theorem goDomainIdx_le (t : NetworkType) : goDomainIdx ⟨6, 2, 0, 1, 2⟩ t ≤ 2 := by
+  unfold goDomainIdx
+  split
+  · simp
+  · split <;> simp
 
 /-- Every slot the control plane can write is inside the map (`max_entries` as the compiler folds it),
 for every outbound id and network type. -/
 theorem connectivity_key_in_range (outbound : Nat) (t : NetworkType) (ho : outbound < 256) :
-    goConnKey outbound t < mapMaxEntries n!"outbound_connectivity_map" := by
-  have hm : mapMaxEntries n!"outbound_connectivity_map" = 1536 := by decide +kernel
-  have h6 : goConstNat n!"control.outboundConnectivitySlotsPerOutbound" = 6 := by decide +kernel
-  have h2 : goConstNat n!"control.outboundConnectivitySlotsPerDomain" = 2 := by decide +kernel
-  have d0 : goConstNat n!"control.outboundConnectivityDomainTCP" = 0 := by decide +kernel
-  have d1 : goConstNat n!"control.outboundConnectivityDomainDnsUDP" = 1 := by decide +kernel
-  have d2 : goConstNat n!"control.outboundConnectivityDomainDataUDP" = 2 := by decide +kernel
-  have hd : goDomainIdx t ≤ 2 := by
-    unfold goDomainIdx; rw [d0, d1, d2]
-    split
-    · omega
-    · split <;> omega
-  rw [hm]
-  unfold goConnKey
-  rw [h6, h2]
+    ∃ k m, goConnKey? outbound t = some k ∧ mapMax? n!"outbound_connectivity_map" = some m ∧ k < m := by
+  have hm : mapMax? n!"outbound_connectivity_map" = some 1536 := by decide +kernel
+  refine ⟨_, 1536, by unfold goConnKey?; rw [conn_consts_now]; rfl, hm, ?_⟩
+  have hd := goDomainIdx_le t
+  unfold goConnKeyWith
   have : (if t.ip = IpStr.v6 then 1 else 0) ≤ 1 := by split <;> omega
-  have hlt : outbound * 6 + goDomainIdx t * 2 + (if t.ip = IpStr.v6 then 1 else 0) < 2 ^ 32 := by omega
-  rw [Nat.mod_eq_of_lt hlt]
+  simp only
+  rw [Nat.mod_eq_of_lt (by omega)]
   omega
 
 /-- No two logical entities share a slot: the key determines the outbound id, the health domain and
 the IP version. -/
 theorem connectivity_key_injective (o o' : Nat) (t t' : NetworkType) (ho : o < 256) (ho' : o' < 256)
-    (h : goConnKey o t = goConnKey o' t') :
-    o = o' ∧ goDomainIdx t = goDomainIdx t' ∧ (t.ip = .v6 ↔ t'.ip = .v6) := by
-  have h6 : goConstNat n!"control.outboundConnectivitySlotsPerOutbound" = 6 := by decide +kernel
-  have h2 : goConstNat n!"control.outboundConnectivitySlotsPerDomain" = 2 := by decide +kernel
-  have d0 : goConstNat n!"control.outboundConnectivityDomainTCP" = 0 := by decide +kernel
-  have d1 : goConstNat n!"control.outboundConnectivityDomainDnsUDP" = 1 := by decide +kernel
-  have d2 : goConstNat n!"control.outboundConnectivityDomainDataUDP" = 2 := by decide +kernel
-  have hd : ∀ x : NetworkType, goDomainIdx x ≤ 2 := by
-    intro x; unfold goDomainIdx; rw [d0, d1, d2]
-    split
-    · omega
-    · split <;> omega
-  unfold goConnKey at h
-  rw [h6, h2] at h
-  have b1 := hd t
-  have b2 := hd t'
+    (h : goConnKey? o t = goConnKey? o' t') :
+    o = o' ∧ goDomainIdx ⟨6, 2, 0, 1, 2⟩ t = goDomainIdx ⟨6, 2, 0, 1, 2⟩ t' ∧ (t.ip = .v6 ↔ t'.ip = .v6) := by
+  unfold goConnKey? at h
+  rw [conn_consts_now] at h
+  simp only [Option.map_some, Option.some.injEq] at h
+  unfold goConnKeyWith at h
+  simp only at h
+  have b1 := goDomainIdx_le t
+  have b2 := goDomainIdx_le t'
   by_cases c1 : t.ip = IpStr.v6 <;> by_cases c2 : t'.ip = IpStr.v6 <;> simp only [c1, c2, if_true, if_false] at h ⊢ <;>
     (rw [Nat.mod_eq_of_lt (by omega), Nat.mod_eq_of_lt (by omega)] at h) <;>
     (refine ⟨by omega, by omega, ?_⟩) <;> simp
   all_goals omega
 
-example : goConnKey 255 ⟨.udp, .v6, .unset⟩ = 1535 := by decide +kernel
+example : goConnKey? 255 ⟨.udp, .v6, .unset⟩ = some 1535 := by decide +kernel
 example : cConnKey 7 17 443 false = some 47 := by decide +kernel
 
-/-- **Listener sockets.** The key under which the control plane stores the TCP/IPv4, TCP/IPv6 and UDP
-listener is the key `assign_listener` looks up for a packet of that kind; the three keys are
-distinct. -/
+/-- **Listener sockets.** The key under which the control plane stores the listener that was duplicated
+from `listener.tcp4Listener` / `.tcp6Listener` / `.packetConn` is the key `assign_listener` looks up for
+a packet of that kind — both sides exist (`some`), nothing is defaulted. -/
 theorem listen_key_agree (l4proto : Nat) (ethIsV6 : Bool) :
-    cListenKey l4proto ethIsV6 = goListenKey (listenerOfPacket l4proto ethIsV6) := by
-  have z : cConstNat n!"zero_key" = goListenKey .tcp4 := by decide +kernel
-  have o : cConstNat n!"one_key" = goListenKey .udp := by decide +kernel
-  have t : cConstNat n!"two_key" = goListenKey .tcp6 := by decide +kernel
-  unfold cListenKey listenerOfPacket
+    ∃ k, cListenKey? l4proto ethIsV6 = some k ∧ goListenKey? (listenerOfPacket l4proto ethIsV6) = some k := by
+  have z : cC? n!"zero_key" = some 0 ∧ goListenKey? .tcp4 = some 0 := by decide +kernel
+  have o : cC? n!"one_key" = some 1 ∧ goListenKey? .udp = some 1 := by decide +kernel
+  have t : cC? n!"two_key" = some 2 ∧ goListenKey? .tcp6 = some 2 := by decide +kernel
+  unfold cListenKey? listenerOfPacket
   by_cases h : l4proto = 6 <;> cases ethIsV6 <;> simp [h, z, o, t]
 
 theorem listen_keys_distinct :
-    goListenKey .tcp4 ≠ goListenKey .tcp6 ∧ goListenKey .tcp4 ≠ goListenKey .udp ∧ goListenKey .tcp6 ≠ goListenKey .udp := by
-  decide
+    goListenKey? .tcp4 ≠ goListenKey? .tcp6 ∧ goListenKey? .tcp4 ≠ goListenKey? .udp ∧ goListenKey? .tcp6 ≠ goListenKey? .udp := by
+  decide +kernel
 
 /-- **`Ipv6ByteSliceToUint32Array` is byte preserving** on either byte order: four native loads
 followed by the native store of the `[4]uint32` give back the 16 address bytes. -/
@@ -362,5 +410,86 @@ theorem value_encoding_big_endian_differs : ¬ value_encoding_any_endian_full :=
   have := h .big 1 (by decide)
   revert this
   decide
+
+/-- The other views of the value union. `l4proto()` / `ipversion()` rules: Go writes ONE byte
+(`[16]byte{byte(v)}`), the kernel reads a 4-byte enum natively and truncates it — read back on
+little-endian machines (partial, same gap as above) … -/
+theorem enum_mask_little_endian_partial (v : Nat) (hv : v < 256) :
+    cReadEnumMask .little (goByteValue v) = v := by
+  unfold cReadEnumMask goByteValue nativeVal
+  have : ([v % 256] ++ zeros 15).take 4 = [v % 256, 0, 0, 0] := by simp [zeros]
+  rw [this]
+  simp [leVal]
+  omega
+
+/-- … and read as 0 on big-endian machines, whatever was written (the byte lands in the most
+significant position and is cut off by the truncation to `__u8`): `l4proto(tcp)` never matches there. -/
+theorem enum_mask_big_endian_differs (v : Nat) : cReadEnumMask .big (goByteValue v) = 0 := by
+  unfold cReadEnumMask goByteValue nativeVal beVal
+  have : ([v % 256] ++ zeros 15).take 4 = [v % 256, 0, 0, 0] := by simp [zeros]
+  rw [this]
+  simp [leVal]
+
+/-- `dscp()` rules (one byte at offset 0) are read back on either byte order. -/
+theorem dscp_view_any_endian (v : Nat) (hv : v < 256) : cReadDscp (goByteValue v) = v := by
+  simp [cReadDscp, goByteValue, Nat.mod_eq_of_lt hv]
+
+/-- `pname()` rules: `equal16` on native 8-byte loads is byte equality of the two 16-byte names on
+either byte order. -/
+theorem pname_view_any_endian (e : Endian) (v p : List Nat) (hv : v.length = 16) (hp : p.length = 16)
+    (bv : Bytes v) (bp : Bytes p) : cPnameEqual e v p = true ↔ v = p := by
+  unfold cPnameEqual
+  simp only [Bool.and_eq_true, beq_iff_eq]
+  constructor
+  · rintro ⟨h1, h2⟩
+    have a := nativeVal_inj e (v.take 8) (p.take 8) (by simp [hv, hp]) (bytes_take 8 bv) (bytes_take 8 bp) h1
+    have b := nativeVal_inj e ((v.drop 8).take 8) ((p.drop 8).take 8) (by simp [hv, hp])
+      (bytes_take 8 (bytes_drop 8 bv)) (bytes_take 8 (bytes_drop 8 bp)) h2
+    have hv8 : (v.drop 8).take 8 = v.drop 8 := List.take_of_length_le (by simp [hv])
+    have hp8 : (p.drop 8).take 8 = p.drop 8 := List.take_of_length_le (by simp [hp])
+    rw [hv8, hp8] at b
+    rw [← List.take_append_drop 8 v, ← List.take_append_drop 8 p, a, b]
+  · rintro rfl; exact ⟨rfl, rfl⟩
+
+/-- `rewriteKernRulesWithRingLpmIndex` keeps the encoding: the rewritten value reads back (little
+endian) as `(start + old) % MaxMatchSetLen`. -/
+theorem ring_index_little_endian_partial (maxSets old start count : Nat) (v : List Nat) (hm : 0 < maxSets)
+    (hm2 : maxSets ≤ 2 ^ 32) (h : goRingIndexValue maxSets old start count = some v) :
+    cReadIndex .little v = ((start + old) % 2 ^ 32) % maxSets ∧ old < count := by
+  unfold goRingIndexValue at h
+  split at h
+  · simp at h
+  · rename_i hc
+    simp only [Option.some.injEq] at h
+    subst h
+    refine ⟨(value_encoding_little_endian_partial _ 0 0 ?_ (by decide) (by decide)).1, by omega⟩
+    exact Nat.lt_of_lt_of_le (Nat.mod_lt _ hm) hm2
+
+/-! ## E. MAC prefix keys -/
+
+/-- **MAC keys.** For every MAC address and either byte order, the address whose /128 prefix
+`addSourceMac` stores (`copy(addr16[10:], mac)`) is byte-identical to the `mac_be` array the kernel
+callers of `route()` build with `bpf_htonl`, hence the stored LPM host key equals the kernel's probe.
+(The C packers are modelled, not executed by this check — see the design note.) -/
+theorem mac_key_bytes (e : Endian) (m0 m1 m2 m3 m4 m5 : Nat) (h0 : m0 < 256) (h1 : m1 < 256) (h2 : m2 < 256)
+    (h3 : m3 < 256) (h4 : m4 < 256) (h5 : m5 < 256) :
+    cMacPack e m0 m1 m2 m3 m4 m5 = goMacAddr16 [m0, m1, m2, m3, m4, m5]
+    ∧ goLpmKey e ⟨⟨false, goMacAddr16 [m0, m1, m2, m3, m4, m5]⟩, 128⟩ = cLpmProbe e (cMacPack e m0 m1 m2 m3 m4 m5) := by
+  have hp : cMacPack e m0 m1 m2 m3 m4 m5 = goMacAddr16 [m0, m1, m2, m3, m4, m5] := by
+    unfold cMacPack goMacAddr16
+    rw [store_htonl, store_htonl]
+    have a : beBytes 4 (m0 * 256 + m1) = [0, 0, m0, m1] := by
+      simp [beBytes, leBytes]; omega
+    have b : beBytes 4 (m2 * 2 ^ 24 + m3 * 2 ^ 16 + m4 * 256 + m5) = [m2, m3, m4, m5] := by
+      simp [beBytes, leBytes]; omega
+    rw [a, b]; simp [zeros]
+  refine ⟨hp, ?_⟩
+  rw [hp]
+  have hb : Bytes (goMacAddr16 [m0, m1, m2, m3, m4, m5]) := by
+    intro x hx
+    simp [goMacAddr16, zeros] at hx
+    rcases hx with h | h | h | h | h | h | h <;> omega
+  rw [lpm_key_bytes e _ (by simp [GoAddr.as16, goMacAddr16, zeros]) (by simpa [GoAddr.as16] using hb)]
+  simp [cLpmProbe, GoAddr.as16]
 
 end DaeVerif.C19.Props
